@@ -139,6 +139,8 @@ channel_read_map(struct channel* self, struct channel_reader* reader)
         goto Finalize;
     }
     size_t avail = self->head - *pos;
+    /* a drained reader gets an empty, non-NULL slice (as the real channel's drained path does) */
+    s.beg = s.end = tape_at(self->data, *pos);
     if (avail) {
         /* any non-empty run of whole writes */
         size_t units = avail / WRITE_UNIT;
